@@ -49,8 +49,14 @@ Section TimeProofs.
   Proof. intros Hc Hf Hz. cast_unfold_top. rewrite time_Parse_text by assumption. reflexivity. Qed.
 
   (* ---------- time -> text, time -> timestamp ---------- *)
-  Lemma ToString_time t : ToString O (VTime t) = Ok (VStr (fmt_rfc3339 t)).
-  Proof. reflexivity. Qed.
+  (* (since fix F7 ToString refuses a time whose year is outside 0..9999) *)
+  Lemma ToString_time t : year_ok t -> ToString O (VTime t) = Ok (VStr (fmt_rfc3339 t)).
+  Proof.
+    intros [H1 H2]. change (ToString O (VTime t))
+      with (if (time_Year t <? 0) || (time_Year t >? 9999) then Err ErrUnableToCastToString else Ok (VStr (fmt_rfc3339 t))).
+    unfold time_Year. destruct (Z.ltb_spec (cy (civil_of t)) 0); [lia|].
+    rewrite Z.gtb_ltb. destruct (Z.ltb_spec 9999 (cy (civil_of t))); [lia | reflexivity].
+  Qed.
 
   Lemma ToTimestamp_time t : ToTimestamp O (VTime t) = Ok (VInt KInt64 (tsec t)).
   Proof. reflexivity. Qed.
@@ -58,11 +64,22 @@ Section TimeProofs.
   Lemma ToTime_time t : ToTime O (VTime t) = Ok (VTime t).
   Proof. reflexivity. Qed.
 
+  Lemma year_ok_of_text y mo d hh mi ss frac zs :
+    civil_ok y mo d hh mi ss -> year_ok (time_of_text y mo d hh mi ss frac zs).
+  Proof.
+    intros Hc. unfold time_of_text.
+    set (t := {| tsec := _; tnsec := _; toff := zone_off zs |}).
+    assert (E : tsec t + toff t = unix_of_civil y mo d hh mi ss) by (cbn [tsec toff t]; lia).
+    destruct (civil_of_unix t y mo d hh mi ss Hc E) as [_ Hr]. exact (proj2 (sec_range_year t Hr)).
+  Qed.
+
   Lemma ToString_time_of_text y mo d hh mi ss frac zs :
     civil_ok y mo d hh mi ss -> zone_ok zs ->
     ToString O (VTime (time_of_text y mo d hh mi ss frac zs)) = Ok (VStr (rfc3339_text y mo d hh mi ss [] (zcanon zs))).
   Proof.
-    intros Hc Hz. rewrite ToString_time. unfold time_of_text. rewrite fmt_of_parsed by assumption. reflexivity.
+    intros Hc Hz. rewrite ToString_time.
+    - unfold time_of_text. rewrite fmt_of_parsed by assumption. reflexivity.
+    - now apply year_ok_of_text.
   Qed.
 
   (* ---------- integers -> time ---------- *)
@@ -99,11 +116,18 @@ Section TimeProofs.
   Lemma importFromTimestamp_int64 n : importFromTimestamp O (VInt KInt64 n) VNil = Ok (VInt KInt64 n).
   Proof. reflexivity. Qed.
 
-  Lemma exportToDateTime_int64 n : exportToDateTime O (VInt KInt64 n) = Ok (VStr (fmt_rfc3339 (time_Unix O n))).
-  Proof. reflexivity. Qed.
+  Lemma exportToDateTime_time t : year_ok t -> exportToDateTime O (VTime t) = Ok (VStr (fmt_rfc3339 t)).
+  Proof.
+    intros Hy. unfold exportToDateTime, exportToDateTime_5, exportToDateTime_body.
+    rewrite ToTime_time. rewrite (ToString_time t Hy). reflexivity.
+  Qed.
 
-  Lemma exportToDateTime_time t : exportToDateTime O (VTime t) = Ok (VStr (fmt_rfc3339 t)).
-  Proof. reflexivity. Qed.
+  Lemma exportToDateTime_int64 n :
+    year_ok (time_Unix O n) -> exportToDateTime O (VInt KInt64 n) = Ok (VStr (fmt_rfc3339 (time_Unix O n))).
+  Proof.
+    intros Hy. unfold exportToDateTime, exportToDateTime_5, exportToDateTime_body.
+    rewrite ToTime_int64. rewrite (ToString_time _ Hy). reflexivity.
+  Qed.
 
   Lemma exportToTimestamp_time t : exportToTimestamp O (VTime t) = Ok (VInt KInt64 (tsec t)).
   Proof. reflexivity. Qed.
@@ -208,7 +232,9 @@ Lemma c14_ts_to_dt (O : oracles) n :
 Proof.
   intros Hz Hr. exists (fmt_rfc3339 (time_Unix O n)).
   pose proof (render_timestamp_instant O n Hz) as Ep.
-  split; [reflexivity|]. split; [exact (importFromTimestamp_num O n Hr)|]. split; [reflexivity|].
+  assert (Hy : year_ok (time_Unix O n)).
+  { destruct Hz as [_ Hs]. apply (sec_range_year (time_Unix O n)). exact Hs. }
+  split; [reflexivity|]. split; [exact (importFromTimestamp_num O n Hr)|]. split; [exact (exportToDateTime_int64 O n Hy)|].
   split; [exact Ep|]. intros O'.
   pose proof (ToTimestamp_of_fast O' _ _ Ep) as Et. cbn [tsec] in Et.
   split; [exact Et|]. split; [|exact (ToTime_of_fast O' _ _ Ep)].
@@ -233,7 +259,7 @@ Proof.
   split; [reflexivity|]. split; [reflexivity|]. split; [reflexivity|].
   split; [exact (ToTimestamp_text O y mo d hh mi ss frac zs Hc Hf Hz)|].
   split; [exact (exportToTimestamp_text O y mo d hh mi ss frac zs Hc Hf Hz)|].
-  rewrite exportToDateTime_time. unfold time_of_text. rewrite fmt_of_parsed by assumption. reflexivity.
+  rewrite exportToDateTime_time by (now apply year_ok_of_text). unfold time_of_text. rewrite fmt_of_parsed by assumption. reflexivity.
 Qed.
 
 Lemma c14_subsecond_floor (O : oracles) y mo d hh mi ss (frac : str) zs :
@@ -270,7 +296,9 @@ Lemma c14_zone_independent (O1 O2 : oracles) n :
 Proof.
   intros H1 H2. exists (fmt_rfc3339 (time_Unix O1 n)), (fmt_rfc3339 (time_Unix O2 n)).
   pose proof (render_timestamp_instant O1 n H1) as E1. pose proof (render_timestamp_instant O2 n H2) as E2.
-  split; [reflexivity|]. split; [reflexivity|].
+  assert (Hy1 : year_ok (time_Unix O1 n)) by (destruct H1 as [_ Hs]; exact (proj2 (sec_range_year (time_Unix O1 n) Hs))).
+  assert (Hy2 : year_ok (time_Unix O2 n)) by (destruct H2 as [_ Hs]; exact (proj2 (sec_range_year (time_Unix O2 n) Hs))).
+  split; [exact (exportToDateTime_int64 O1 n Hy1)|]. split; [exact (exportToDateTime_int64 O2 n Hy2)|].
   split; [rewrite E1; reflexivity|]. split; [rewrite E2; reflexivity|].
   intros O'. split; [exact (ToTimestamp_of_fast O' _ _ E1) | exact (ToTimestamp_of_fast O' _ _ E2)].
 Qed.
